@@ -50,6 +50,8 @@ def gen_history(rng, e: Entry, cfg, nobj=3, nops=12, mix=None, maxn=8, sizes=Non
             if saved:
                 ops.append(("load", i, rng.choice(sorted(saved))))
     ops.append(("compute", rng.randrange(nobj)))
+    if hasattr(e, "filter_ops"):
+        ops = e.filter_ops(ops)
     return ops
 
 
